@@ -277,20 +277,22 @@ func (l *tcpTransportListener) Listen(ctx context.Context, addr net.Addr) error 
 	l.done = make(chan struct{})
 	l.connChan = make(chan net.Conn, l.ConnBuffer)
 
-	go l.serve(listener)
+	go l.serve(listener, l.done, l.connChan)
 
 	return nil
 }
 
-func (l *tcpTransportListener) serve(listener net.Listener) {
+// serve runs the accept loop of one serving period. The channels of that period are handed over by Listen: the
+// fields of the listener may already belong to a later period by the time this goroutine runs.
+func (l *tcpTransportListener) serve(listener net.Listener, done <-chan struct{}, connChan chan<- net.Conn) {
 	verifPoint("tcplistener:serve:start")
-	defer close(l.connChan)
+	defer close(connChan)
 
 	for {
 		conn, err := listener.Accept()
 		if err != nil {
 			select {
-			case <-l.done:
+			case <-done:
 				return
 			default:
 				log.Printf("tcp listener: serve: %v\n", err)
@@ -298,9 +300,9 @@ func (l *tcpTransportListener) serve(listener net.Listener) {
 			}
 		} else {
 			select {
-			case <-l.done:
+			case <-done:
 				return
-			case l.connChan <- conn:
+			case connChan <- conn:
 			}
 		}
 	}
